@@ -217,6 +217,10 @@ def canonical(base, out):
 
 if __name__ == "__main__":
     scen, pad = int(sys.argv[1]), int(sys.argv[2])
+    if scen == 102:
+        # the lowest switch numbers are FREE here (nobody names or refers to switches 0 and 1): the new named switches
+        # are handed numbers 0, 1, ... in set order, and each keeps its name whichever number it got
+        CARRIED_SWITCHES = (200, 3)
     try:
         base, out = build(scen, pad)
         print("OK %s len=%d" % (canonical(base, out), len(out)))
